@@ -30,10 +30,11 @@ def load_known() -> list[dict[str, str]]:
     return out
 
 
-def native(sidecar: str, repo: str, cmd: str, arg: dict[str, Any], timeout: int = 3600) -> dict[str, Any]:
+def native(sidecar: str, repo: str, cmd: str, arg: dict[str, Any], timeout: int = 3600, extra_env: dict[str, str] | None = None) -> dict[str, Any]:
     env = dict(os.environ)
     env["PYTHONPATH"] = HERE
     env.setdefault("PYTHONHASHSEED", "0")
+    env.update(extra_env or {})
     p = subprocess.run([VENV_PY, "-m", "pyvc.native", sidecar, repo, cmd, json.dumps(arg)], capture_output=True, text=True,
                        cwd=HERE, env=env, timeout=timeout)
     for line in p.stdout.splitlines():
@@ -210,8 +211,10 @@ def triage_failing(run: Run, sidecar: str, res: dict[str, Any]) -> None:
         run.undecided.append(f"contract could not be bound to the current source: {u}")
 
 
-def crosscheck(run: Run, sidecar: str, n: int) -> dict[str, Any]:
-    r = native(os.path.join(HERE, sidecar), run.repo, "crosscheck", {"n": n, "seed": run.seed})
+def crosscheck(run: Run, sidecar: str, n: int, extra_env: dict[str, str] | None = None) -> dict[str, Any]:
+    r = native(os.path.join(HERE, sidecar), run.repo, "crosscheck", {"n": n, "seed": run.seed}, extra_env=extra_env)
+    if extra_env:
+        r["environment"] = extra_env
     if "functions" not in r:
         run.crashes.append(f"native cross-check failed: {str(r)[:600]}")
         return r
@@ -222,7 +225,7 @@ def crosscheck(run: Run, sidecar: str, n: int) -> dict[str, Any]:
                 run.report(f"{f}/{cl}", {"obligation": f"{f}/{cl} (runtime contract on the real function)", "function": f, "sidecar": sidecar,
                                          "encoded_args": fv.get("encoded"), "args": fv.get("args"), "observed_result": fv.get("result"),
                                          "raised": fv.get("raised"), "violated_native_clauses": fv["violations"],
-                                         "exception": fv.get("exception")})
+                                         "exception": fv.get("exception"), "environment": extra_env or {}})
         if st["cases"] - st["skipped"] == 0:
             run.crashes.append(f"native generator for {f} produced no input satisfying requires")
     return r
@@ -238,7 +241,7 @@ def do_replay(run: Run, path: str) -> int:
         print(f"replay file names obligation {data.get('obligation')} and carries the solver output; no input to re-run")
         print(json.dumps(data.get("solver_output"), indent=1))
         return 0
-    r = native(os.path.join(HERE, sidecar), run.repo, "replayfile", {"path": path})
+    r = native(os.path.join(HERE, sidecar), run.repo, "replayfile", {"path": path}, extra_env=data.get("environment") or None)
     print(json.dumps(r, indent=1))
     if r.get("violations"):
         print(f"VIOLATION property={run.prop} replay={path}")
@@ -260,9 +263,14 @@ def run(prop: str, tier: str, seed: int, repo: str, replay: str, enroll: bool) -
     for sc in d.get("sidecars", []):
         res = deductive(r, sc, both=(tier == "thorough"), enroll=enroll)
         triage_failing(r, sc, res)
-        xc = crosscheck(r, sc, d.get("native_n", {}).get(tier, 300))
+        envs = d.get("native_envs") or [None]
+        xc = crosscheck(r, sc, d.get("native_n", {}).get(tier, 300), envs[0])
         res["runtime_contracts_on_real_code"] = {f: {k: v for k, v in st.items() if k != "first_violation"}
                                                  for f, st in xc.get("functions", {}).items()}
+        for extra in envs[1:]:
+            xc2 = crosscheck(r, sc, max(200, d.get("native_n", {}).get(tier, 300) // 4), extra)
+            res.setdefault("runtime_contracts_other_environments", []).append(
+                {"environment": extra, "functions": {f: {k: v for k, v in st.items() if k != "first_violation"} for f, st in xc2.get("functions", {}).items()}})
         if hasattr(res["_session"].side, "validate_trusted") and d.get("validate_trusted", True):
             res["trusted_contract_validation"] = defs.validate_trusted(r, sc)
         for k in ("_failing", "_missing", "_session"):
